@@ -208,7 +208,7 @@ func (x *Exec) loopCut(fr *Frame, st *State, call *ssa.Call, b *ssa.BasicBlock, 
 			f2.loopsActive = cloneLoops(fr.loopsActive)
 			f2.loopsActive[call] = lc2
 			f2.prev = nil
-				savedSide := len(x.side)
+			savedSide := len(x.side)
 			savedAborted := len(x.aborted)
 			x.discovering++
 			outs := x.runFrom(f2, s2, li.header, 0)
